@@ -20,17 +20,17 @@ claimed = {
          "Exactly the wrapper obligations that turn openpgp.CheckDetachedSignature's guarantee into the property are decided on every scenario path; the OpenPGP library is trusted."),
  "C12": ("other", AI + " of GetHash / FileHash.Verifier and the verifier it returns / NewHasher and the hasher it returns / the hashing constructors / FileHashFromHasher through the public API, with hash objects as recording oracles and interpreted package initialisers; Read / Write of a hashing stream that is not io.TeeReader / io.MultiWriter interpreted against a scripted stream; field/algorithm table with the algorithm read off an interpreted line parse", "3.C12",
          "Algorithm tables (incl. freshness of hash objects), verifier algorithm choice for every name x hash length, fan-out wiring, byte counting and the Close verdict are decided; the digests themselves are the standard library's."),
- "C13": ("other", AI + " of LoadAr / Ar.Next / the header parser on a symbolic 60 byte header (opaque byte tokens, symbolic sizes, linear offsets), cross-checked (and replaced, when the reader leaves the symbolic model) by interpretation on 90 concrete archives against an ar(5) reference reader", "3.C13",
+ "C13": ("other", AI + " of LoadAr / Ar.Next / the header parser on a symbolic 60 byte header (opaque byte tokens, symbolic sizes, linear offsets), cross-checked (and replaced, when the reader leaves the symbolic model) by interpretation on 247 concrete archives against an ar(5) reference reader (23 member sizes around 512, 1024, 4096 and 8192 bytes, each followed by even and odd sized members in both orders)", "3.C13",
          "Column provenance of every entry field, name trimming, member reader placement, offset arithmetic, freshness, global and header magic, short reads are decided for every header; byte equality of the delivered data rests on io.SectionReader."),
  "C14": ("other", AI + " of the .deb loader on scripted archives: the ar iterator, bufio, the six decompressor constructors, archive/tar, control.Unmarshal and Close are provenance-recording oracles; every iteration order of the member map is explored; decompressor table read from the interpreted package initialiser; LoadFile interpreted with os.Open / Lstat / Stat as oracles", "3.C14",
          "Format checks, codec wiring for all 36 encoding combinations, extension slicing, control lookup, untouched data stream, determinism and index completeness are decided on the scenario family; tar/decompressor behaviour is trusted."),
- "C15": ("other", AI + " of Ar.Next on a symbolic header (progress >= 60 bytes per member with size >= 0 on the path, header magic, short reads), of LoadAr/Next on 90 concrete archives, with a concrete size column against a ReaderAt that ends inside or right after the data (truncated members refused), and of the loader on scripted archives over every map iteration order (loop exit, determinism, error texts included); reachability of fatal exits and unconditional panics (a panic statement behind a guard is decided by the interpreted families, not by reachability); constant-index bounds", "3.C15",
+ "C15": ("other", AI + " of Ar.Next on a symbolic header (progress >= 60 bytes per member with size >= 0 on the path, header magic, short reads), of LoadAr/Next on 247 concrete archives, with a concrete size column against a ReaderAt that ends inside or right after the data (truncated members refused), and of the loader on scripted archives over every map iteration order (loop exit, determinism, error texts included); reachability of fatal exits and unconditional panics (a panic statement behind a guard is decided by the interpreted families, not by reachability); constant-index bounds", "3.C15",
          "Termination bound and consistency clauses are decided for every header and every scripted archive; a member whose recorded size runs past the end of the input is refused (probe-read scenarios); a ReaderAt that changes between Next and the read is not covered."),
  "C16": ("other", AI + " of CheckDebsig on scripted member maps (roles, decoys, both library verdicts) over every map iteration order, with Seek, io.NewSectionReader, io.MultiReader and CheckDetachedSignature as recording oracles (the signed stream is made of readers of the verifier's own over whole members; the shared member readers are never moved); the loader interpreted on the same scenarios", "3.C16",
          "The wrapper obligations that turn the OpenPGP library's guarantee into the property are decided on the scenario family; the library is trusted."),
  "C19": ("other", AI + " of OrderDSCForBuild on exact source descriptions, once with a recording oracle for the topological sorter (every AddEdge/Sort outcome enumerated) and once end to end with the sorter interpreted (returned order checked against the dependency edges; cycle; sources built directly and decoded from .dsc documents, one of them with a Build-Depends line of 5600 bytes; a non-gnu build architecture; three sampled orders for large maps); struct-tag, map-order and package-state rules", "3.C19",
          "Edges per build-dependency field (with C06 selection semantics interpreted, not mocked), edge direction, node-before-edge order, error propagation and result construction are decided; the sorter itself is trusted."),
- "C20": ("other", AI + " of the six upload methods and internal.Copy with every filesystem call replaced by an effect-recording oracle forking into success and failure; the constructors interpreted for the path they record (no symbolic link resolution)", "3.C20",
+ "C20": ("other", AI + " of the six upload methods and internal.Copy with every filesystem call replaced by an effect-recording oracle forking into success and failure (Stat / Lstat answers, two file sizes and both orders of two modification times included: success without creating and writing the destination is a violation); the constructors interpreted for the path they record (no symbolic link resolution)", "3.C20",
          "Order of effects (control file last), failure propagation, destination paths, handle update, the handle recording the path the caller gave (no symbolic link resolution), containment of listed names and cleanup after a failed copy are decided on every path of the oracle tree; real filesystem behaviour is not."),
  "C07": ("other", AI + " of ParagraphReader.Next / All with the buffered reader replaced by a scripted oracle over 18 line kinds (all scripts up to length 3, with and without final newline), compared with a deb822 reference model; who-reads rule", "3.C07",
          "The reader's line classification, folding, duplicate handling, EOF handling and the Order/Values invariant are decided for every combination of reader state class and line kind; documents outside the line kinds are not."),
